@@ -1,6 +1,16 @@
 (* C10/Props.v -- property theorems only; each is closed by [exact] of a lemma
    of C10/Proofs.v and followed by Print Assumptions.
 
+   THE PROGRAMS THE THEOREMS SPEAK ABOUT ARE REGENERATED FROM THE SOURCE ON EVERY RUN:
+   [run_ip] / [run_oop] dispatch to the definitions of Gen/ProxCalls.v, which
+   translate/prox_calls.py (fail-closed Python-ast translator) re-emits from the current
+   `_call` bodies of odl/solvers/nonsmooth/proximal_operators.py (all classes, `proj_l1`),
+   of the proximal classes of IndicatorSimplex / IndicatorSumConstraint, and of the in-place and
+   out-of-place bodies of the nine expression classes of odl/operator/operator.py and of
+   Scaling/Zero/Constant/MultiplyOperator -- with their `x is out` tests, copies and
+   temporaries.  Dropping a copy, swapping the aliased / non-aliased branch, or reusing `out`
+   as scratch before the last read of `x` makes the proofs below fail.
+
    Objects (C10/Model.v):  [heap] = buffer id -> array plus an allocation counter;
    an element of a space is the list [ref] of the ids of its leaf arrays; [run_ip e x out h]
    is the heap after the in-place call  e(x, out=out)  (Operator.__call__ -> _call with its
@@ -123,7 +133,7 @@ Proof. exact l1_value. Qed.
 Theorem soft_thresholding_form : forall (c u : R), (0 <= c)%R ->
   (u - clip c u = nsign u * Rmax (Rabs u - c) 0)%R.
 Proof. exact soft_threshold. Qed.
-Theorem prox_cc_l1_is_box_projection : forall (lam sigma : R) (v : list (list R)), (0 < lam)%R ->
+Theorem prox_cc_l1_is_box_projection : forall (lam : R) (sigma : sval R) (v : list (list R)), (0 < lam)%R ->
   pure_ccl1 lam sigma None v = e1 (clip lam) v.
 Proof. exact ccl1_value. Qed.
 Theorem prox_box_is_clamp : forall (lo hi : R) (v : list (list R)),
